@@ -15,4 +15,6 @@ CONSTANTS
 INIT Init
 NEXT Next
 INVARIANT Inv_C16
+INVARIANT Inv_VecFun
+INVARIANT Inv_BlurFast
 CHECK_DEADLOCK FALSE
